@@ -10,10 +10,13 @@
                      | 8 tgt itr list list                     for
          142 idx N (kind id)*N J jt*J          block of the implementation, dictionary order
               kind: 1 act 2 pass 3 return 4 break 5 continue 6 test
-   answer: [decoded; blocks equal; for-loop header indices consistent; block indices distinct] *)
+         143 idx N (kind id)*N J jt*J          block after the three pruning passes, dictionary order
+         144 status entry                      0: pruned, entry = first key;  1: pruning raised IndexError
+   answer: [decoded; blocks equal; for-loop header indices consistent; block indices distinct;
+            pruned blocks and entry equal (or both fail)] *)
 From Coq Require Import List ZArith Bool.
 Import ListNotations.
-From V Require Import Valid.Hier Valid.FlatRegion Model.Src.
+From V Require Import Valid.Hier Valid.FlatRegion Model.Src Model.SrcPrune.
 Local Open Scope Z_scope.
 
 Fixpoint parse_stmt (fuel : nat) (l : list Z) : option (stmt * list Z) :=
@@ -124,8 +127,13 @@ Definition b2z (b : bool) : Z := if b then 1 else 0.
 
 Definition run_src (rows : list (list Z)) : list Z :=
   match program_of rows with
-  | None => [0; 0; 0; 0]
+  | None => [0; 0; 0; 0; 0]
   | Some p =>
     let G := build p in
-    [1; b2z (blocks_eq G (rows_of rows 142)); b2z (fors_ok p); b2z (nodupb (map b_idx G))]
+    [1; b2z (blocks_eq G (rows_of rows 142)); b2z (fors_ok p); b2z (nodupb (map b_idx G));
+     match rows_of rows 144, sprune G 0 with
+     | [[0; e]], Some (G', e') => b2z (blocks_eq G' (rows_of rows 143) && Z.eqb e e')
+     | [[1; _]], None => 1
+     | _, _ => 0
+     end]
   end.
